@@ -46,7 +46,7 @@ def _algorithm_frame():
         fn = f.f_code.co_filename
         if "/pyvolutionary/" in fn:
             base = os.path.basename(fn)
-            if base not in ("abstract.py", "models.py", "helpers.py"):
+            if base not in ("abstract.py", "models.py", "helpers.py") and f.f_code.co_name != "_init_agent":
                 return f"{base}:{f.f_code.co_name}"
             if fallback is None or base == "abstract.py":
                 fallback = f"{base}:{f.f_code.co_name}"
